@@ -53,6 +53,7 @@ func main() {
 	p.BuildSummaries()
 	p.BuildLockInfo()
 	p.BuildFrozen()
+	p.BuildFrozenFields()
 	p.BuildNonNilGlobals()
 	work, err := os.MkdirTemp("", "lhv-")
 	if err != nil {
